@@ -273,18 +273,28 @@ def compat_unique(ctx: Ctx) -> list[Ob]:
     params = [p.name for p in f.params][:2]
     if len(params) != 2:
         return [unres("R7d", fq, "unique-factorization", "signature changed: no verdict", f.loc)]
-    refusing: list[ast.If] = []
+    # refusing conditions: `if T: return False`  -> T ;  `return all(E for ..)` -> not E ;
+    # `return not any(E for ..)` -> E   (each with the comprehension's local bindings)
+    refusing: list[ast.AST] = []
     for n in walk_no_nested(f.node):
         if isinstance(n, ast.If) and n.body and isinstance(n.body[-1], ast.Return) and isinstance(n.body[-1].value, ast.Constant) and n.body[-1].value.value is False:
-            refusing.append(n)
+            refusing.append(n.test)
+        elif isinstance(n, ast.Return) and n.value is not None:
+            q = _quantified(n.value)
+            if q is not None:
+                quant, elt, _gens, neg = q
+                if quant == "all" and not neg:
+                    refusing.append(ast.UnaryOp(op=ast.Not(), operand=elt))
+                elif quant == "any" and neg:
+                    refusing.append(elt)
     out: list[Ob] = []
     if not refusing:
-        return [unres("R7d", fq, "unique-factorization", "no `if ..: return False` in the function (another formulation): no verdict", f.loc)]
+        return [unres("R7d", fq, f"unique-factorization:side{k}", "no refusing condition found (another formulation): no verdict", f.loc) for k in (1, 2)]
     for k, pn in enumerate(params, 1):
         inst = f"unique-factorization:side{k}"
-        lens: list[tuple[ast.If, ast.Call]] = []
+        lens: list[tuple[ast.AST, ast.Call]] = []
         for n in refusing:
-            for c in ast.walk(n.test):
+            for c in ast.walk(n):
                 if isinstance(c, ast.Call) and isinstance(c.func, ast.Name) and c.func.id == "len" and len(c.args) == 1:
                     roots = _base_roots(ld, c.args[0])
                     if pn in roots and not (set(params) - {pn}) & roots:
@@ -292,7 +302,7 @@ def compat_unique(ctx: Ctx) -> list[Ob]:
         if not lens:
             out.append(viol("R7d", fq, inst, f"no refusing test consults how many ways `{pn}` factorizes a common scope: two circuits that both split a scope in the same several ways are reported compatible", f.loc))
             continue
-        good = any(fires(n.test, {unparse(c): 2})[0] == ALWAYS for n, c in lens)
+        good = any(fires(n, {unparse(c): 2})[0] == ALWAYS for n, c in lens)
         if good:
             out.append(ok("R7d", fq, inst, f"refuses when `{pn}` has two factorizations of a common scope", f.loc))
         else:
